@@ -373,6 +373,17 @@ func shortFn(id string) string {
 // litField: for a value that is a load of a composite-literal local (or a
 // pointer to one), return the value stored into the named field.
 func litField(v ssa.Value, field string) ssa.Value {
+	out := litField0(v, field)
+	if out == nil && len(helpers) > 0 {
+		out = litField0(unhelp(peel(v)), field) // the literal is built by a transparent helper
+	}
+	if _, isP := out.(*ssa.Parameter); isP && len(helpers) > 0 {
+		out = unhelp(out) // a helper's parameter: the argument of the call in focus
+	}
+	return out
+}
+
+func litField0(v ssa.Value, field string) ssa.Value {
 	v = peel(v)
 	var a *ssa.Alloc
 	switch x := v.(type) {
